@@ -107,6 +107,14 @@ CHECKS["C12"] = dict(
         "of the round trip (in particular for Proof, which no test round-trips); equality of decoded field values and reader-implementation "
         "independence are C07/C13.",
    design_ref="DESIGN.md §3 C12")
+CHECKS["C14"] = dict(
+   technique="static analysis (lint over the MIR of the `concurrent` build configuration): who-may-call rule for scheduling-dependent combinators, inventory of raw-pointer reborrows in parallel code, consumption rule for the worker count, sibling signatures",
+   text="Static analysis of the feature-enabled build (which the test suite never compiles): scheduling-dependent rayon combinators occur only "
+        "in the nonce search; the functions that re-create a mutable slice from a raw pointer inside parallel code are exactly the three "
+        "reviewed ones; the raw worker count is consumed only through next_power_of_two() so batch boundaries stay aligned for every pool "
+        "size; public functions of `concurrent` modules have serial siblings with identical signatures. Index-disjointness at the raw-pointer "
+        "sites and bit-identity of results are not decided.",
+   design_ref="DESIGN.md §3 C14")
 NA = {
 }
 PENDING = "check under construction in this build round (see DESIGN.md §8)"
